@@ -1,4 +1,6 @@
-(** DialectProofs: proofs about the dialect model (DialectImpl) over the generated tables. *)
+(** DialectProofs: proofs about the dialect model (DialectImpl) over the generated tables.
+    Everything is for EVERY float oracle [fo] and, where possible, for every dialect of the
+    generated shape ([wf_dialect]); the generated tables are instances (wf_generated). *)
 From Coq Require Import String.
 From Coq Require Import List Ascii ZArith Bool Lia Permutation.
 From CGV Require Import Base.PyBase Base.PyVal Gen.DialectGen Dialect.DialectImpl Dialect.DialectDefs.
@@ -11,3 +13,333 @@ Lemma generated_tables_documented :
 Proof. split; vm_compute; reflexivity. Qed.
 Lemma wf_generated : wf_dialect graph_base_dialect = true /\ wf_dialect fragment_node_dialect = true.
 Proof. split; vm_compute; reflexivity. Qed.
+Lemma names_clean_generated :
+  forallb clean (pnames graph_base_dialect) = true /\ forallb clean (pnames fragment_node_dialect) = true.
+Proof. split; vm_compute; reflexivity. Qed.
+
+(** ** strings *)
+Lemma split_on_nosep c s : forall cur, ~ In c s -> split_on c s cur = [rev cur ++ s].
+Proof.
+  induction s as [|x s IH]; intros cur H; cbn.
+  - now rewrite app_nil_r.
+  - destruct (Ascii.eqb_spec x c) as [->|N]; [exfalso; apply H; now left|].
+    rewrite IH; [|intros HI; apply H; now right]. cbn. now rewrite <- app_assoc.
+Qed.
+Lemma split_on_sep c a b : forall cur, ~ In c a ->
+  split_on c (a ++ c :: b) cur = (rev cur ++ a) :: split_on c b [].
+Proof.
+  induction a as [|x a IH]; intros cur H; cbn.
+  - rewrite Ascii.eqb_refl. now rewrite app_nil_r.
+  - destruct (Ascii.eqb_spec x c) as [->|N]; [exfalso; apply H; now left|].
+    rewrite IH; [|intros HI; apply H; now right]. cbn. now rewrite <- app_assoc.
+Qed.
+Lemma py_split_join c es : es <> [] -> Forall (fun e => ~ In c e) es -> py_split (join [c] es) c = es.
+Proof.
+  unfold py_split. induction es as [|x r IH]; intros N F; [congruence|].
+  inversion F as [|? ? Hx Hr]; subst. destruct r as [|y r'].
+  - cbn. now rewrite split_on_nosep.
+  - change (join [c] (x :: y :: r')) with (x ++ [c] ++ join [c] (y :: r')).
+    cbn [app]. rewrite split_on_sep by assumption. cbn [rev app]. f_equal. apply IH; [discriminate|assumption].
+Qed.
+Lemma join_nil_inv c es : join [c] es = [] -> es = [] \/ es = [[]].
+Proof.
+  destruct es as [|x [|y r]]; cbn; intros H; auto.
+  - right. now subst.
+  - destruct x; cbn in H; discriminate.
+Qed.
+
+Lemma clean_spec s : clean s = true -> ~ In ";"%char s /\ ~ In "="%char s.
+Proof.
+  unfold clean. rewrite andb_true_iff, !negb_true_iff. intros [A B]. split; intros HI.
+  - apply char_in_In in HI. congruence.
+  - apply char_in_In in HI. congruence.
+Qed.
+Lemma count_notin c s : ~ In c s -> py_count s c = 0.
+Proof.
+  unfold py_count. induction s as [|x s IH]; intros H; [reflexivity|]. cbn.
+  destruct (Ascii.eqb_spec c x) as [->|N]; [exfalso; apply H; now left|]. apply IH. intros HI; apply H; now right.
+Qed.
+Lemma count_app c a b : py_count (a ++ b) c = py_count a c + py_count b c.
+Proof. unfold py_count. now rewrite filter_app, app_length. Qed.
+Lemma count_render_kw kv : clean_entry kv = true -> py_count (render_kw kv) "="%char = 1.
+Proof.
+  unfold clean_entry, render_kw. rewrite andb_true_iff. intros [A B].
+  apply clean_spec in A. apply clean_spec in B. rewrite count_app.
+  rewrite (count_notin _ _ (proj2 A)). change ("="%char :: snd kv) with (["="%char] ++ snd kv).
+  rewrite count_app, (count_notin _ _ (proj2 B)). reflexivity.
+Qed.
+Lemma split_render_kw kv : clean_entry kv = true -> py_split (render_kw kv) "="%char = [fst kv; snd kv].
+Proof.
+  unfold clean_entry, render_kw, py_split. rewrite andb_true_iff. intros [A B].
+  apply clean_spec in A. apply clean_spec in B.
+  rewrite split_on_sep by apply A. cbn [rev app]. now rewrite split_on_nosep by apply B.
+Qed.
+Lemma render_kw_nosemi kv : clean_entry kv = true -> ~ In ";"%char (render_kw kv).
+Proof.
+  unfold clean_entry, render_kw. rewrite andb_true_iff. intros [A B].
+  apply clean_spec in A. apply clean_spec in B. intros HI. apply in_app_or in HI. destruct HI as [HI|[HI|HI]].
+  - now apply A. - discriminate. - now apply B.
+Qed.
+
+(** ** generic association lists *)
+Fixpoint assoc {A} (k : pystr) (l : list (pystr * A)) : option A :=
+  match l with [] => None | (k', v) :: r => if str_eqb k k' then Some v else assoc k r end.
+Lemma kw_get_assoc k d : kw_get k d = assoc k d.
+Proof. induction d as [|[k' v] r IH]; cbn; [reflexivity|now rewrite IH]. Qed.
+Lemma aget_assoc k d : aget k d = assoc k d.
+Proof. induction d as [|[k' v] r IH]; cbn; [reflexivity|now rewrite IH]. Qed.
+Lemma assoc_notin {A} k (l : list (pystr * A)) : ~ In k (map fst l) -> assoc k l = None.
+Proof.
+  induction l as [|[k' v] r IH]; cbn; intros H; [reflexivity|].
+  destruct (str_eqb_spec k k') as [->|N]; [exfalso; apply H; now left|]. apply IH. intros HI; apply H; now right.
+Qed.
+Lemma assoc_in {A} k v (l : list (pystr * A)) : NoDup (map fst l) -> In (k, v) l -> assoc k l = Some v.
+Proof.
+  induction l as [|[k' v'] r IH]; cbn; intros ND HI; [destruct HI|].
+  inversion ND as [|? ? Hn Hr]; subst. destruct HI as [E|HI].
+  - inversion E; subst. now rewrite str_eqb_refl.
+  - destruct (str_eqb_spec k k') as [->|N]; [|now apply IH].
+    exfalso. apply Hn. change k' with (fst (k', v)). now apply in_map.
+Qed.
+Lemma assoc_some_in {A} k v (l : list (pystr * A)) : assoc k l = Some v -> In (k, v) l.
+Proof.
+  induction l as [|[k' v'] r IH]; cbn; intros H; [discriminate|].
+  destruct (str_eqb_spec k k') as [->|N]; [inversion H; now left|right; now apply IH].
+Qed.
+Lemma assoc_perm {A} k (l l' : list (pystr * A)) : Permutation l l' -> NoDup (map fst l) -> assoc k l = assoc k l'.
+Proof.
+  intros P ND. assert (ND' : NoDup (map fst l')) by (eapply Permutation_NoDup; [apply Permutation_map, P|exact ND]).
+  destruct (assoc k l) as [v|] eqn:E.
+  - symmetry. apply assoc_in; [assumption|]. eapply Permutation_in; [exact P|]. now apply assoc_some_in.
+  - destruct (assoc k l') as [v|] eqn:E'; [|reflexivity].
+    apply assoc_some_in in E'. apply (Permutation_in _ (Permutation_sym P)) in E'.
+    apply (assoc_in _ _ _ ND) in E'. congruence.
+Qed.
+Lemma assoc_app {A} k (a b : list (pystr * A)) :
+  assoc k (a ++ b) = match assoc k a with Some v => Some v | None => assoc k b end.
+Proof. induction a as [|[k' v] r IH]; cbn; [reflexivity|]. destruct (str_eqb k k'); [reflexivity|exact IH]. Qed.
+
+(** ** splitting a rendered annotation *)
+Lemma kw_set_fresh k v d : ~ In k (keys d) -> kw_set k v d = d ++ [(k, v)].
+Proof.
+  induction d as [|[k' v'] r IH]; cbn; intros H; [reflexivity|].
+  destruct (str_eqb_spec k k') as [->|N]; [exfalso; apply H; now left|]. f_equal. apply IH. intros HI; apply H; now right.
+Qed.
+Lemma split_entries_pos pos : forall rest args kws, Forall (fun v => clean v = true) pos ->
+  split_entries (pos ++ rest) args kws = split_entries rest (args ++ pos) kws.
+Proof.
+  induction pos as [|x r IH]; intros rest args kws F; cbn [app].
+  - now rewrite app_nil_r.
+  - inversion F as [|? ? Hx Hr]; subst. apply clean_spec in Hx. destruct Hx as [_ Hx]. cbn [split_entries].
+    rewrite (count_notin _ _ Hx). cbn. unfold py_split. rewrite split_on_nosep by assumption. cbn [rev app].
+    rewrite IH by assumption. now rewrite <- app_assoc.
+Qed.
+Lemma split_entries_kws l : forall rest args kws, Forall (fun kv => clean_entry kv = true) l ->
+  NoDup (keys kws ++ keys l) ->
+  split_entries (map render_kw l ++ rest) args kws = split_entries rest args (kws ++ l).
+Proof.
+  induction l as [|[k v] r IH]; intros rest args kws F ND; cbn [map app].
+  - now rewrite app_nil_r.
+  - inversion F as [|? ? Hx Hr]; subst. cbn [split_entries].
+    rewrite (count_render_kw _ Hx). change (Nat.ltb 1 1) with false. cbv iota.
+    rewrite (split_render_kw _ Hx). cbn [fst snd].
+    rewrite kw_set_fresh.
+    + rewrite IH; [now rewrite <- app_assoc|assumption|].
+      unfold keys in *. rewrite map_app. cbn. rewrite <- app_assoc. exact ND.
+    + unfold keys in ND. cbn in ND. apply NoDup_remove_2 in ND. intros HI. apply ND. apply in_or_app. now left.
+Qed.
+
+Lemma split_render pos kws :
+  Forall (fun v => clean v = true) pos -> Forall (fun kv => clean_entry kv = true) kws -> NoDup (keys kws) ->
+  pos ++ map render_kw kws <> [[]] ->
+  split_annotation (render pos kws) = Ok (pos, kws).
+Proof.
+  intros Fp Fk ND NE. unfold split_annotation, render.
+  destruct (join sep (pos ++ map render_kw kws)) eqn:J.
+  - apply join_nil_inv in J. destruct J as [J|J]; [|contradiction].
+    apply app_eq_nil in J. destruct J as [-> J]. apply map_eq_nil in J. now subst.
+  - rewrite <- J. unfold sep. rewrite py_split_join.
+    + rewrite split_entries_pos by assumption. rewrite <- (app_nil_r (map render_kw kws)).
+      rewrite split_entries_kws; [reflexivity|assumption|exact ND].
+    + intros E. rewrite E in J. discriminate.
+    + apply Forall_app. split.
+      * eapply Forall_impl; [|exact Fp]. intros e0 Ha. apply clean_spec in Ha. apply Ha.
+      * apply Forall_forall. intros e He. apply in_map_iff in He. destruct He as [kv [<- Hk]].
+        apply render_kw_nosemi. rewrite Forall_forall in Fk. now apply Fk.
+Qed.
+
+(** general writings: positional and keyword entries interleaved *)
+Lemma split_entries_ents es : forall rest args kws,
+  Forall (fun v => clean v = true) (pos_of es) -> Forall (fun kv => clean_entry kv = true) (kws_of es) ->
+  NoDup (keys kws ++ keys (kws_of es)) ->
+  split_entries (map render_ent es ++ rest) args kws = split_entries rest (args ++ pos_of es) (kws ++ kws_of es).
+Proof.
+  induction es as [|[x|k v] r IH]; intros rest args kws Fp Fk ND; cbn [map app pos_of kws_of flat_map].
+  - now rewrite !app_nil_r.
+  - cbn [pos_of flat_map app] in Fp. inversion Fp as [|? ? Hx Hr]; subst.
+    apply clean_spec in Hx. destruct Hx as [_ Hx]. cbn [split_entries render_ent].
+    rewrite (count_notin _ _ Hx). change (Nat.ltb 1 0) with false. cbv iota.
+    unfold py_split. rewrite split_on_nosep by assumption. cbn [rev app].
+    rewrite IH; [now rewrite <- app_assoc|assumption|assumption|assumption].
+  - cbn [kws_of flat_map app] in Fk, ND. inversion Fk as [|? ? Hx Hr]; subst. cbn [split_entries render_ent].
+    rewrite (count_render_kw _ Hx). change (Nat.ltb 1 1) with false. cbv iota.
+    rewrite (split_render_kw _ Hx). cbn [fst snd]. rewrite kw_set_fresh.
+    + rewrite IH; [now rewrite <- app_assoc|assumption|assumption|].
+      unfold keys in *. rewrite map_app. cbn. rewrite <- app_assoc. exact ND.
+    + unfold keys in ND. cbn in ND. apply NoDup_remove_2 in ND. intros HI. apply ND. apply in_or_app. now left.
+Qed.
+Lemma render_ent_nosemi e :
+  Forall (fun v => clean v = true) (pos_of [e]) -> Forall (fun kv => clean_entry kv = true) (kws_of [e]) ->
+  ~ In ";"%char (render_ent e).
+Proof.
+  destruct e as [x|k v]; cbn; intros A B.
+  - inversion A; subst. now apply clean_spec.
+  - inversion B; subst. now apply (render_kw_nosemi (k, v)).
+Qed.
+Lemma pos_of_app a b : pos_of (a ++ b) = pos_of a ++ pos_of b.
+Proof. unfold pos_of. now rewrite flat_map_app. Qed.
+Lemma kws_of_app a b : kws_of (a ++ b) = kws_of a ++ kws_of b.
+Proof. unfold kws_of. now rewrite flat_map_app. Qed.
+Lemma split_render_ents es :
+  Forall (fun v => clean v = true) (pos_of es) -> Forall (fun kv => clean_entry kv = true) (kws_of es) ->
+  NoDup (keys (kws_of es)) -> es <> [EPos []] ->
+  split_annotation (render_ents es) = Ok (pos_of es, kws_of es).
+Proof.
+  intros Fp Fk ND NE. unfold split_annotation, render_ents.
+  destruct (join sep (map render_ent es)) eqn:J.
+  - apply join_nil_inv in J. destruct J as [J|J].
+    + apply map_eq_nil in J. now subst.
+    + exfalso. destruct es as [|e [|e' r]]; cbn in J; try discriminate.
+      destruct e as [x|k v]; cbn in J; inversion J; [now subst|]. destruct k; discriminate.
+  - rewrite <- J. unfold sep. rewrite py_split_join.
+    + rewrite <- (app_nil_r (map render_ent es)). rewrite split_entries_ents; [reflexivity|assumption|assumption|exact ND].
+    + intros E. rewrite E in J. discriminate.
+    + apply Forall_forall. intros t Ht. apply in_map_iff in Ht. destruct Ht as [e [<- He]].
+      apply in_split in He. destruct He as [l1 [l2 ->]].
+      rewrite pos_of_app, kws_of_app in *. change (e :: l2) with ([e] ++ l2) in *. rewrite pos_of_app, kws_of_app in *.
+      apply Forall_app in Fp. destruct Fp as [_ Fp]. apply Forall_app in Fp. destruct Fp as [Fp _].
+      apply Forall_app in Fk. destruct Fk as [_ Fk]. apply Forall_app in Fk. destruct Fk as [Fk _].
+      now apply render_ent_nosemi.
+Qed.
+
+(** ** C20: the error theorems, for every float oracle, every dialect, every position *)
+Lemma split_entries_two_eq entries : forall args kws e, In e entries -> 1 < py_count e "="%char ->
+  split_entries entries args kws = Err (ESyntax (S "toomany_eq")).
+Proof.
+  induction entries as [|x r IH]; intros args kws e HI Hc; [destruct HI|]. cbn [split_entries].
+  destruct (Nat.ltb 1 (py_count x "="%char)) eqn:E; [reflexivity|].
+  destruct HI as [->|HI]; [apply Nat.ltb_lt in Hc; congruence|].
+  destruct (py_split x "="%char) as [|a [|b l]]; now apply (IH _ _ e).
+Qed.
+(** an entry with two '=' anywhere in the annotation: SyntaxError *)
+Theorem two_eq_rejected fo dl s e : s <> [] -> In e (py_split s ";"%char) -> 1 < py_count e "="%char ->
+  parse_dialect fo dl s = Err (ESyntax (S "toomany_eq")).
+Proof.
+  intros N HI Hc. unfold parse_dialect, split_annotation. destruct s; [congruence|].
+  now rewrite (split_entries_two_eq _ _ _ e).
+Qed.
+(** ... in particular at every position among arbitrary other entries *)
+Theorem two_eq_rejected_at fo dl es1 e es2 :
+  Forall (fun x => ~ In ";"%char x) (es1 ++ e :: es2) -> 1 < py_count e "="%char ->
+  parse_dialect fo dl (join sep (es1 ++ e :: es2)) = Err (ESyntax (S "toomany_eq")).
+Proof.
+  intros F Hc. apply (two_eq_rejected fo dl _ e); [| |assumption].
+  - intros J. apply join_nil_inv in J. destruct J as [J|J].
+    + destruct es1; discriminate.
+    + destruct es1 as [|a [|b r]]; cbn in J; inversion J; subst; cbn in Hc; try lia.
+  - unfold sep. rewrite py_split_join; [apply in_or_app; right; now left| |assumption]. destruct es1; discriminate.
+Qed.
+
+Lemma bind_params_too_many ps : forall args kws, length ps < length args ->
+  bind_params ps args kws = Err (ESyntax (S "bind")).
+Proof.
+  induction ps as [|p r IH]; intros [|a args'] kws H; cbn in H; try lia; cbn [bind_params]; [reflexivity|].
+  destruct (kw_get (pname p) kws); [reflexivity|]. rewrite IH by lia. reflexivity.
+Qed.
+(** more positional values than parameters: SyntaxError *)
+Theorem too_many_positional_rejected fo dl s args kws :
+  split_annotation s = Ok (args, kws) -> length (params dl) < length args ->
+  parse_dialect fo dl s = Err (ESyntax (S "bind")).
+Proof.
+  intros Hs H. unfold parse_dialect. rewrite Hs. cbn. unfold bind_cast. now rewrite bind_params_too_many.
+Qed.
+Lemma bind_params_twice ps : forall i args kws p, nth_error ps i = Some p -> i < length args ->
+  kw_get (pname p) kws <> None -> bind_params ps args kws = Err (ESyntax (S "bind")).
+Proof.
+  induction ps as [|p0 r IH]; intros i args kws p Hn Hl Hk; [destruct i; discriminate|].
+  destruct args as [|a args']; [cbn in Hl; lia|]. cbn [bind_params]. destruct i as [|j].
+  - cbn in Hn. inversion Hn; subst. destruct (kw_get (pname p) kws); [reflexivity|congruence].
+  - cbn in Hn, Hl. destruct (kw_get (pname p0) kws); [reflexivity|].
+    rewrite (IH j args' kws p); [reflexivity|assumption|lia|assumption].
+Qed.
+(** a parameter filled positionally and by keyword: SyntaxError *)
+Theorem bound_twice_rejected fo dl s args kws i p :
+  split_annotation s = Ok (args, kws) -> nth_error (params dl) i = Some p -> i < length args ->
+  kw_get (pname p) kws <> None -> parse_dialect fo dl s = Err (ESyntax (S "bind")).
+Proof.
+  intros Hs Hn Hl Hk. unfold parse_dialect. rewrite Hs. cbn. unfold bind_cast.
+  now rewrite (bind_params_twice _ i args kws p).
+Qed.
+
+Lemma cast_err fo t v e : cast fo t v = Err e -> e = EType.
+Proof. destruct t; cbn; [destruct (fo v)|]; intros H; inversion H; reflexivity. Qed.
+Lemma cast_bound_err fo bound p v : In (p, Some v) bound -> ptype p = TFloat -> fo v = None ->
+  cast_bound fo bound = Err EType.
+Proof.
+  induction bound as [|[q [w|]] r IH]; intros HI Ht Hf; [destruct HI| |].
+  - cbn [cast_bound]. destruct HI as [E|HI].
+    + inversion E; subst. unfold cast. rewrite Ht, Hf. reflexivity.
+    + destruct (cast fo (ptype q) w) eqn:C; cbn.
+      * rewrite IH by assumption. reflexivity.
+      * apply cast_err in C. now subst.
+  - cbn [cast_bound]. destruct HI as [E|HI]; [discriminate|]. rewrite IH by assumption. reflexivity.
+Qed.
+(** a reserved numeric key whose text float() refuses: TypeError (once the binding itself succeeded) *)
+Theorem non_numeric_rejected fo dl s args kws bound rest p v :
+  split_annotation s = Ok (args, kws) -> bind_params (params dl) args kws = Ok (bound, rest) ->
+  accept_kwargs dl = true -> In (p, Some v) bound -> ptype p = TFloat -> fo v = None ->
+  parse_dialect fo dl s = Err EType.
+Proof.
+  intros Hs Hb Ha HI Ht Hf. unfold parse_dialect. rewrite Hs. cbn. unfold bind_cast. rewrite Hb. cbn.
+  rewrite Ha. cbn. rewrite (cast_bound_err fo bound p v) by assumption. reflexivity.
+Qed.
+
+(** which values the binding gives to which parameter *)
+Lemma kw_get_del_other k k' d : k <> k' -> kw_get k (kw_del k' d) = kw_get k d.
+Proof.
+  intros N. unfold kw_del. induction d as [|[a b] r IH]; cbn; [reflexivity|].
+  destruct (str_eqb_spec k' a) as [->|N2]; cbn.
+  - destruct (str_eqb_spec k a); [congruence|exact IH].
+  - destruct (str_eqb k a); [reflexivity|exact IH].
+Qed.
+Lemma bind_params_kw_bound ps : forall kws bound rest p v,
+  bind_params ps [] kws = Ok (bound, rest) -> NoDup (map pname ps) -> In p ps ->
+  kw_get (pname p) kws = Some v -> In (p, Some v) bound.
+Proof.
+  induction ps as [|p0 r IH]; intros kws bound rest p v Hb ND HI Hk; [destruct HI|].
+  inversion ND as [|? ? Hn Hr]; subst. cbn [bind_params] in Hb.
+  destruct HI as [->|HI].
+  - rewrite Hk in Hb. destruct (bind_params r [] (kw_del (pname p) kws)) as [[b' r']|]; cbn in Hb; inversion Hb. now left.
+  - assert (N : pname p <> pname p0) by (intros E; apply Hn; rewrite <- E; now apply in_map).
+    destruct (kw_get (pname p0) kws) eqn:E0.
+    + destruct (bind_params r [] (kw_del (pname p0) kws)) as [[b' r']|] eqn:Eb; cbn in Hb; inversion Hb; subst.
+      right. apply (IH _ _ _ p v Eb Hr HI). now rewrite kw_get_del_other.
+    + destruct (bind_params r [] kws) as [[b' r']|] eqn:Eb; cbn in Hb; inversion Hb; subst.
+      right. now apply (IH _ _ _ p v Eb Hr HI).
+Qed.
+Lemma bind_params_bound ps : forall args kws bound rest,
+  bind_params ps args kws = Ok (bound, rest) -> NoDup (map pname ps) ->
+  (forall i p v, nth_error ps i = Some p -> nth_error args i = Some v -> In (p, Some v) bound) /\
+  (forall p v, In p (skipn (length args) ps) -> kw_get (pname p) kws = Some v -> In (p, Some v) bound).
+Proof.
+  induction ps as [|p0 r IH]; intros args kws bound rest Hb ND.
+  - split; [intros [|i] p v H; discriminate|]. intros p v HI. destruct args; destruct HI.
+  - inversion ND as [|? ? Hn Hr]; subst. destruct args as [|a args'].
+    + split; [intros [|i] p v _ H; discriminate|]. intros p v HI Hk. cbn [length skipn] in HI.
+      now apply (bind_params_kw_bound (p0 :: r) kws bound rest p v).
+    + cbn [bind_params] in Hb. destruct (kw_get (pname p0) kws); [discriminate|].
+      destruct (bind_params r args' kws) as [[b' r']|] eqn:Eb; cbn in Hb; inversion Hb; subst.
+      destruct (IH _ _ _ _ Eb Hr) as [I1 I2]. split.
+      * intros [|i] p v Hp Hv; cbn in Hp, Hv; [inversion Hp; inversion Hv; subst; now left|]. right. now apply (I1 i).
+      * intros p v HI Hk. right. now apply I2.
+Qed.
